@@ -294,6 +294,8 @@ class Scenario:
     # ---- the scenario ----
     def classify(self, r):
         if not isinstance(r, Failure):
+            if hasattr(r, "get_repair_attempted") and not r.get_repair_attempted():
+                return "noop"            # check_and_repair found nothing to repair: no publish took place
             return "ok"
         if r.check(UncoordinatedWriteError):
             return "UCWE"
@@ -354,6 +356,13 @@ class Scenario:
                 wr.node = wr.nodemaker.create_from_cap(cap)
                 assert wr.node is not node0
             assert len({id(wr.node) for wr in writers}) == W
+            if sp.get("repairer"):
+                # the file needs repair (one share is gone); writer w1 is a repairer (check_and_repair), the others overwrite
+                shs = g.shares(self.si)
+                for sname in sorted(shs):
+                    if shs[sname]:
+                        os.unlink(shs[sname][sorted(shs[sname])[0]])
+                        break
         for name in sorted(g.servers):
             d = self.disk(name) if self.si else {}
             init[name] = {sh: d.get(sh, 0) for sh in self.shnums}
@@ -363,7 +372,13 @@ class Scenario:
                 wr.opid = 1
                 wr.content = (b"contents of %s " % wr.name.encode()) * (1 + (sp["seed"] + wr.idx) % 4)
                 self.events.append({"ev": "Begin", "w": wr.name, "op": "overwrite"})
-                self.start(wr, wr.node.overwrite(MutableData(wr.content)))
+                if sp.get("repairer") and wr.idx == 0:
+                    from allmydata.monitor import Monitor
+                    wr.content = initial_content          # a repair republishes what is there
+                    wr.repairer = True
+                    self.start(wr, wr.node.check_and_repair(Monitor(), verify=False))
+                else:
+                    self.start(wr, wr.node.overwrite(MutableData(wr.content)))
             self.run_all()
         if sp["op"] == "create":
             # initial state for a creation: nothing anywhere (recorded before the run would be the same)
@@ -461,6 +476,9 @@ def run_mode(work, mode, n, seed, tier):
             spec = {"kind": "conc", "W": W, "k": k, "n": nn, "servers": ns, "fmt": rng.choice(["SDMF", "MDMF"]),
                     "seed": rng.randrange(10 ** 6), "op": "overwrite", "schedule": None,
                     "pfault": rng.choice([0, 0, 0, 0.1, 0.25])}
+            # ("repairer": True makes w1 a repairer - check_and_repair - racing the overwriting writers.  Not generated: the
+            # repairer's two surveys with a retrieve in between are not modelled by PublishProtocol.tla yet, and the unchanged
+            # tree is rejected on conformance clauses; see DESIGN.md 14.2, seeded change C12_d.)
             traces.append(run_scenario(work, spec))
     elif mode == "dfs":
         bases = [(2, 1, 3, 3, "SDMF", 2), (2, 2, 3, 3, "MDMF", 2), (2, 1, 4, 3, "SDMF", 1), (3, 1, 4, 4, "MDMF", 1)]
